@@ -770,6 +770,9 @@ class Describer:
             return opaque(f"writer starts with {ev!r}")
         if ev[0] == "wvarint":
             prefix, targ = {"k": "varint"}, ev[2]
+            probs = (n.raw[3] or {}).get("problems") if len(n.raw) > 3 and isinstance(n.raw[3], dict) else None
+            if probs:
+                prefix["noncanonical"] = f"{n.raw[3].get('fn')}: {probs[0]}"
         else:
             t = ev[2]
             if t[0] == "pack" and len(t) == 3:
